@@ -966,3 +966,393 @@ Proof.
   - clear. induction (c_comp c) as [|x r IH]; [reflexivity|]. cbn. assumption.
   - clear. induction (c_comp c) as [|x r IH]; [reflexivity|]. cbn. now rewrite N.eqb_refl.
 Qed.
+
+(* ---------- each option changes exactly its field ---------- *)
+Definition set_uid (p : opts) (u : option N) : opts :=
+  MkOpts (p_ltype p) (p_name p) (p_hassrc p) (p_target p) (p_mod p) u (p_gid p) (p_dev p) (p_skip p).
+Definition set_gid (p : opts) (g : option N) : opts :=
+  MkOpts (p_ltype p) (p_name p) (p_hassrc p) (p_target p) (p_mod p) (p_uid p) g (p_dev p) (p_skip p).
+Definition set_mod (p : opts) (s : option bytes) : opts :=
+  MkOpts (p_ltype p) (p_name p) (p_hassrc p) (p_target p) s (p_uid p) (p_gid p) (p_dev p) (p_skip p).
+Definition e_with_uid (e : entry) (u : N) : entry :=
+  MkEntry (e_ltype e) (e_name e) (e_target e) (e_fsize e) (e_mtime e) (e_xattrs e) (e_gid e) u (e_perms e)
+          (e_devino e) (e_ischar e) (e_major e) (e_minor e) (e_dlen e) (e_data e).
+Definition e_with_gid (e : entry) (g : N) : entry :=
+  MkEntry (e_ltype e) (e_name e) (e_target e) (e_fsize e) (e_mtime e) (e_xattrs e) g (e_uid e) (e_perms e)
+          (e_devino e) (e_ischar e) (e_major e) (e_minor e) (e_dlen e) (e_data e).
+Definition e_with_perms (e : entry) (pm : N) : entry :=
+  MkEntry (e_ltype e) (e_name e) (e_target e) (e_fsize e) (e_mtime e) (e_xattrs e) (e_gid e) (e_uid e) pm
+          (e_devino e) (e_ischar e) (e_major e) (e_minor e) (e_dlen e) (e_data e).
+
+Definition retouch (g u pm : N) (e : entry) : entry :=
+  MkEntry (e_ltype e) (e_name e) (e_target e) (e_fsize e) (e_mtime e) (e_xattrs e) g u pm
+          (e_devino e) (e_ischar e) (e_major e) (e_minor e) (e_dlen e) (e_data e).
+Definition res_map (f : entry -> entry) (r : res entry) : res entry :=
+  match r with ROk e => ROk (f e) | RSkip => RSkip | RErr => RErr | RDiverge => RDiverge end.
+
+(* owner and permission bits pass through the final switch untouched *)
+Lemma finish_retouch p p' t ob mt xa g u pm g' u' pm' :
+  p_name p' = p_name p -> p_target p' = p_target p -> p_hassrc p' = p_hassrc p -> p_dev p' = p_dev p ->
+  finish p' t ob mt xa g' u' pm' = res_map (retouch g' u' pm') (finish p t ob mt xa g u pm).
+Proof.
+  intros H1 H2 H3 H4. unfold finish. rewrite H1, H2, H3, H4. destruct t; try reflexivity.
+  - destruct ob; reflexivity.
+  - destruct (is_nil (p_target p)); [|reflexivity]. destruct ob; [|reflexivity].
+    destruct (fs_readlink (o_link o)); reflexivity.
+  - destruct (p_dev p) as [[[? ?] ?]|]; [reflexivity|]. destruct ob; [|reflexivity].
+    destruct (_ =? S_IFCHR); [reflexivity|]. destruct (_ =? S_IFBLK); reflexivity.
+Qed.
+
+Lemma finish_fields p t ob mt xa g u pm e :
+  finish p t ob mt xa g u pm = ROk e -> e_gid e = g /\ e_uid e = u /\ e_perms e = pm /\ e_ltype e = t.
+Proof.
+  unfold finish. destruct t; try discriminate.
+  - intros H. injection H as <-. auto.
+  - destruct ob; [|discriminate]. intros H. injection H as <-. auto.
+  - destruct (is_nil (p_target p)).
+    + destruct ob; [|discriminate]. destruct (fs_readlink (o_link o)); try discriminate.
+      intros H. injection H as <-. auto.
+    + intros H. injection H as <-. auto.
+  - destruct (p_dev p) as [[[? ?] ?]|].
+    + intros H. injection H as <-. auto.
+    + destruct ob; [|discriminate].
+      destruct (_ =? S_IFCHR); [intros H; injection H as <-; auto|].
+      destruct (_ =? S_IFBLK); [intros H; injection H as <-; auto|discriminate].
+Qed.
+
+Lemma retouch_uid e u : retouch (e_gid e) u (e_perms e) e = e_with_uid e u.
+Proof. reflexivity. Qed.
+Lemma retouch_gid e g : retouch g (e_uid e) (e_perms e) e = e_with_gid e g.
+Proof. reflexivity. Qed.
+Lemma retouch_perms e pm : retouch (e_gid e) (e_uid e) pm e = e_with_perms e pm.
+Proof. reflexivity. Qed.
+
+(* add_single up to the three pass-through fields *)
+Lemma add_single_retouch p p' s now :
+  p_ltype p' = p_ltype p -> p_name p' = p_name p -> p_hassrc p' = p_hassrc p -> p_target p' = p_target p ->
+  p_dev p' = p_dev p -> p_skip p' = p_skip p -> line_ok p' = line_ok p ->
+  forall e0, add_single p s now = ROk e0 ->
+  let ex := match s with SPresent _ => true | _ => false end in
+  let st := match s with SPresent o => o_st o | _ => zero_stat end in
+  add_single p' s now =
+    ROk (retouch (gid_of p' ex st) (uid_of p' ex st) (perms_of p' ex (st_mode st) (e_ltype e0)) e0).
+Proof.
+  intros H1 H2 H3 H4 H5 H6 HL e0. unfold add_single. rewrite HL.
+  destruct (negb (line_ok p)); [discriminate|].
+  assert (Htd : forall ex a b, type_decision p' ex a b = type_decision p ex a b).
+  { intros. unfold type_decision, need_check. now rewrite H1, H3, H4, H5. }
+  destruct s as [| |o].
+  - rewrite H6. destruct (p_skip p); [discriminate|]. rewrite Htd.
+    destruct (type_decision p false LNone false) as [t|]; [|discriminate].
+    intros He. cbv zeta.
+    rewrite (finish_retouch p p' t None now None (gid_of p false zero_stat) (uid_of p false zero_stat)
+               (perms_of p false 0 t)) by assumption.
+    rewrite He. cbn [res_map]. destruct (finish_fields _ _ _ _ _ _ _ _ _ He) as (_ & _ & _ & ->). reflexivity.
+  - discriminate.
+  - destruct (classify _) as [[a b]|]; [|discriminate]. rewrite Htd.
+    destruct (type_decision p true a b) as [t|]; [|discriminate].
+    destruct (get_xattrs _) as [xa| |]; try discriminate.
+    intros He. cbv zeta.
+    rewrite (finish_retouch p p' t (Some o) (st_mtime (o_st o)) xa (gid_of p true (o_st o)) (uid_of p true (o_st o))
+               (perms_of p true (st_mode (o_st o)) t)) by assumption.
+    rewrite He. cbn [res_map]. destruct (finish_fields _ _ _ _ _ _ _ _ _ He) as (_ & _ & _ & ->). reflexivity.
+Qed.
+
+Lemma add_single_fields p s now e :
+  add_single p s now = ROk e ->
+  let ex := match s with SPresent _ => true | _ => false end in
+  let st := match s with SPresent o => o_st o | _ => zero_stat end in
+  e_gid e = gid_of p ex st /\ e_uid e = uid_of p ex st /\ e_perms e = perms_of p ex (st_mode st) (e_ltype e).
+Proof.
+  unfold add_single. destruct (negb (line_ok p)); [discriminate|]. destruct s as [| |o].
+  - destruct (p_skip p); [discriminate|]. destruct (type_decision p false LNone false) as [t|]; [|discriminate].
+    intros He. destruct (finish_fields _ _ _ _ _ _ _ _ _ He) as (-> & -> & -> & ->). auto.
+  - discriminate.
+  - destruct (classify _) as [[a b]|]; [|discriminate].
+    destruct (type_decision p true a b) as [t|]; [|discriminate].
+    destruct (get_xattrs _) as [xa| |]; try discriminate.
+    intros He. destruct (finish_fields _ _ _ _ _ _ _ _ _ He) as (-> & -> & -> & ->). auto.
+Qed.
+
+(* uid= sets the owner and nothing else *)
+Theorem override_uid p s now e0 u : u < 2147483648 ->
+  add_single (set_uid p None) s now = ROk e0 ->
+  add_single (set_uid p (Some u)) s now = ROk (e_with_uid e0 u).
+Proof.
+  intros Hu He.
+  rewrite (add_single_retouch (set_uid p None) (set_uid p (Some u)) s now) with (e0 := e0); try reflexivity; try assumption.
+  - destruct (add_single_fields _ _ _ _ He) as (Hg & _ & Hp). cbv zeta in Hg, Hp.
+    rewrite <- retouch_uid. f_equal. f_equal; [symmetry; exact Hg|symmetry; exact Hp].
+  - unfold line_ok, opt_masks. cbn. apply N.ltb_lt in Hu. now rewrite Hu.
+Qed.
+
+(* gid= sets the group and nothing else *)
+Theorem override_gid p s now e0 g : g < 2147483648 ->
+  add_single (set_gid p None) s now = ROk e0 ->
+  add_single (set_gid p (Some g)) s now = ROk (e_with_gid e0 g).
+Proof.
+  intros Hu He.
+  rewrite (add_single_retouch (set_gid p None) (set_gid p (Some g)) s now) with (e0 := e0); try reflexivity; try assumption.
+  - destruct (add_single_fields _ _ _ _ He) as (_ & Hg & Hp). cbv zeta in Hg, Hp.
+    rewrite <- retouch_gid. f_equal. f_equal; [symmetry; exact Hg|symmetry; exact Hp].
+  - unfold line_ok, opt_masks. cbn. apply N.ltb_lt in Hu. rewrite Hu. now rewrite andb_true_r.
+Qed.
+
+(* mod= sets the permission bits -- to the octal value, or to what chmod makes of the bits
+   the entry would have had -- and nothing else *)
+Theorem override_mod p s now e0 ms :
+  modspec_ok ms = true ->
+  add_single (set_mod p None) s now = ROk e0 ->
+  exists pm, add_single (set_mod p (render_mod ms)) s now = ROk (e_with_perms e0 pm)
+    /\ N.land pm 4095 = apply_mod ms (N.land (e_perms e0) 4095).
+Proof.
+  intros Hok He.
+  assert (Hr : opt_bytes_beq (render_mod ms) (p_mod (set_mod p (render_mod ms))) = true).
+  { cbn. destruct (render_mod ms); cbn; [apply beq_refl|reflexivity]. }
+  destruct (mod_facts ms (set_mod p (render_mod ms)) Hok Hr) as [Hm Hp].
+  destruct (add_single_fields _ _ _ _ He) as (Hg & Hu & Hpm). cbv zeta in Hg, Hu, Hpm.
+  eexists. split.
+  - rewrite (add_single_retouch (set_mod p None) (set_mod p (render_mod ms)) s now) with (e0 := e0);
+      try reflexivity; try assumption.
+    + rewrite <- retouch_perms. f_equal. f_equal; symmetry; assumption.
+    + unfold line_ok. cbn [p_uid p_gid p_dev set_mod p_mod]. unfold opt_masks at 2. cbn [p_mod set_mod has negb andb].
+      destruct (has (render_mod ms)) eqn:E; [|reflexivity]. cbn in Hm. now rewrite (Hm E).
+  - rewrite Hp. f_equal. rewrite Hpm. unfold perms_of. cbn [p_mod set_mod]. 
+    destruct s as [| |o]; reflexivity.
+Qed.
+
+Definition set_dev (p : opts) (d : option (bool * N * N)) : opts :=
+  MkOpts (p_ltype p) (p_name p) (p_hassrc p) (p_target p) (p_mod p) (p_uid p) (p_gid p) d (p_skip p).
+Definition set_targ (p : opts) (t : bytes) : opts :=
+  MkOpts (p_ltype p) (p_name p) (p_hassrc p) t (p_mod p) (p_uid p) (p_gid p) (p_dev p) (p_skip p).
+Definition set_src (p : opts) (b : bool) : opts :=
+  MkOpts (p_ltype p) (p_name p) b (p_target p) (p_mod p) (p_uid p) (p_gid p) (p_dev p) (p_skip p).
+Definition e_with_dev (e : entry) (isc : bool) (ma mi : N) : entry :=
+  MkEntry (e_ltype e) (e_name e) (e_target e) (e_fsize e) (e_mtime e) (e_xattrs e) (e_gid e) (e_uid e) (e_perms e)
+          (e_devino e) isc ma mi (e_dlen e) (e_data e).
+Definition e_with_target (e : entry) (t : bytes) : entry :=
+  MkEntry (e_ltype e) (e_name e) t (e_fsize e) (e_mtime e) (e_xattrs e) (e_gid e) (e_uid e) (e_perms e)
+          (e_devino e) (e_ischar e) (e_major e) (e_minor e) (e_dlen e) (e_data e).
+Definition e_with_devino (e : entry) (d : option N) : entry :=
+  MkEntry (e_ltype e) (e_name e) (e_target e) (e_fsize e) (e_mtime e) (e_xattrs e) (e_gid e) (e_uid e) (e_perms e)
+          d (e_ischar e) (e_major e) (e_minor e) (e_dlen e) (e_data e).
+
+(* dev= on a node entry replaces the device type and numbers read from the node, nothing else *)
+Theorem override_dev p o now e0 isc ma mi :
+  p_ltype p = LDev -> p_hassrc p = false -> ma < 4294967296 -> mi < 4294967296 ->
+  add_single (set_dev p None) (SPresent o) now = ROk e0 ->
+  add_single (set_dev p (Some (isc, ma, mi))) (SPresent o) now = ROk (e_with_dev e0 isc ma mi).
+Proof.
+  intros Hl Hs Hma Hmi. unfold add_single.
+  assert (L : line_ok (set_dev p (Some (isc, ma, mi))) = line_ok (set_dev p None)).
+  { unfold line_ok, opt_masks, dev_ok. cbn. apply N.ltb_lt in Hma, Hmi. now rewrite Hma, Hmi. }
+  rewrite L. destruct (negb (line_ok (set_dev p None))); [discriminate|].
+  destruct (classify _) as [[a b]|]; [|discriminate].
+  unfold type_decision, need_check. cbn [p_ltype p_hassrc p_dev set_dev has negb orb]. rewrite Hl, Hs. cbn [orb].
+  destruct b; [discriminate|]. destruct (true && negb (ltype_eqb LDev a)); [discriminate|].
+  destruct (get_xattrs _) as [xa| |]; try discriminate.
+  unfold finish. cbn [p_dev set_dev p_name p_target].
+  destruct (_ =? S_IFCHR); [intros H; injection H as <-; reflexivity|].
+  destruct (_ =? S_IFBLK); [intros H; injection H as <-; reflexivity|discriminate].
+Qed.
+
+(* targ= on a symlink entry replaces the target read from the link, nothing else *)
+Theorem override_targ p o now e0 tg :
+  p_ltype p = LSym -> tg <> [] ->
+  add_single (set_targ p []) (SPresent o) now = ROk e0 ->
+  add_single (set_targ p tg) (SPresent o) now = ROk (e_with_target e0 tg).
+Proof.
+  intros Hl Ht. unfold add_single.
+  change (line_ok (set_targ p tg)) with (line_ok (set_targ p [])).
+  destruct (negb (line_ok (set_targ p []))); [discriminate|].
+  destruct (classify _) as [[a b]|]; [|discriminate].
+  unfold type_decision, need_check. cbn [p_ltype p_target set_targ is_nil]. rewrite Hl.
+  destruct tg as [|c tg]; [congruence|]. cbn [is_nil].
+  destruct b; [discriminate|]. destruct (true && negb (ltype_eqb LSym a)); [discriminate|].
+  destruct (get_xattrs _) as [xa| |]; try discriminate.
+  unfold finish. cbn [p_target set_targ is_nil p_name].
+  destruct (fs_readlink _); try discriminate. intros H. injection H as <-. reflexivity.
+Qed.
+
+(* src= makes the entry a copy of another object: every field is taken from the object lstat
+   found at the source path exactly as it would be from the named path; only the hard-link
+   bookkeeping (which is by name) is switched off *)
+Theorem override_src p s now e0 :
+  p_ltype p = LFile \/ p_ltype p = LDir \/ (p_ltype p = LDev /\ p_dev p = None) ->
+  add_single (set_src p false) s now = ROk e0 ->
+  add_single (set_src p true) s now = ROk (e_with_devino e0 None).
+Proof.
+  intros Hl. unfold add_single.
+  change (line_ok (set_src p true)) with (line_ok (set_src p false)).
+  destruct (negb (line_ok (set_src p false))); [discriminate|].
+  destruct s as [| |o].
+  - cbn [p_skip set_src]. destruct (p_skip p); [discriminate|].
+    unfold type_decision, need_check. cbn [p_ltype p_hassrc p_dev set_src].
+    destruct Hl as [Hl|[Hl|[Hl Hd]]]; rewrite Hl.
+    + cbn. discriminate.
+    + cbn. intros H. injection H as <-. reflexivity.
+    + rewrite Hd. cbn. unfold finish. cbn [p_dev set_src]. rewrite Hd. discriminate.
+  - discriminate.
+  - destruct (classify _) as [[a b]|]; [|discriminate].
+    unfold type_decision, need_check. cbn [p_ltype p_hassrc p_dev set_src].
+    destruct Hl as [Hl|[Hl|[Hl Hd]]]; rewrite Hl; try rewrite Hd; cbn [negb orb has].
+    + destruct b; [discriminate|]. destruct (true && negb (ltype_eqb LFile a)); [discriminate|].
+      destruct (get_xattrs _) as [xa| |]; try discriminate.
+      unfold finish. cbn. intros H. injection H as <-. reflexivity.
+    + destruct (get_xattrs _) as [xa| |]; try discriminate.
+      unfold finish. cbn. intros H. injection H as <-. reflexivity.
+    + destruct b; [discriminate|]. destruct (true && negb (ltype_eqb LDev a)); [discriminate|].
+      destruct (get_xattrs _) as [xa| |]; try discriminate.
+      unfold finish. cbn [p_dev set_src p_name p_target]. rewrite Hd.
+      destruct (_ =? S_IFCHR); [intros H; injection H as <-; reflexivity|].
+      destruct (_ =? S_IFBLK); [intros H; injection H as <-; reflexivity|discriminate].
+Qed.
+
+(* ---------- members synthesised for absent paths ---------- *)
+Theorem absent_defaults p now e :
+  add_single p SAbsent now = ROk e ->
+  e_uid e = optN (p_uid p) 0 /\ e_gid e = optN (p_gid p) 0 /\ e_mtime e = now /\ e_xattrs e = None
+  /\ e_fsize e = 0 /\ e_devino e = None
+  /\ (p_mod p = None ->
+      e_perms e = match e_ltype e with LDir => 493 | LSym => 511 | _ => 420 end
+      /\ usable_outside 0 (match e_ltype e with LDir => TypeDir | LSym => TypeSymlink | _ => TypeChar end)
+                        (e_perms e) = true).
+Proof.
+  unfold add_single. destruct (negb (line_ok p)); [discriminate|].
+  destruct (p_skip p); [discriminate|].
+  destruct (type_decision p false LNone false) as [t|]; [|discriminate].
+  assert (Hu : uid_of p false zero_stat = optN (p_uid p) 0) by (unfold uid_of, optN; now destruct (p_uid p)).
+  assert (Hg : gid_of p false zero_stat = optN (p_gid p) 0) by (unfold gid_of, optN; now destruct (p_gid p)).
+  assert (Hp : p_mod p = None -> perms_of p false 0 t = default_perms t) by (intros H; unfold perms_of; now rewrite H).
+  unfold finish. destruct t; try discriminate.
+  - intros H. injection H as <-. cbn. rewrite Hu, Hg. repeat split; auto. all: rewrite Hp by assumption; reflexivity.
+  - destruct (is_nil (p_target p)); [discriminate|]. intros H. injection H as <-. cbn. rewrite Hu, Hg.
+    repeat split; auto. all: rewrite Hp by assumption; reflexivity.
+  - destruct (p_dev p) as [[[? ?] ?]|]; [|discriminate]. intros H. injection H as <-. cbn. rewrite Hu, Hg.
+    repeat split; auto. all: rewrite Hp by assumption; reflexivity.
+Qed.
+
+(* ---------- the buffer loops never run out of fuel, whatever the attribute list ---------- *)
+Lemma assoc_vsum k xs v : assoc k xs = Some v -> (length v <= vsum xs)%nat.
+Proof.
+  induction xs as [|[n w] r IH]; [discriminate|]. cbn [assoc].
+  destruct (beq n k).
+  - intros H. injection H as <-. cbn. lia.
+  - intros H. apply IH in H. cbn. unfold vsum in H. cbn in H. lia.
+Qed.
+
+Lemma values_loop_total xs f : (vsum xs <= f)%nat -> forall names cap, 0 < cap ->
+  exists l, values_loop (S f) xs names cap = LDone l.
+Proof.
+  intros Hf. induction names as [|n r IH]; intros cap Hc; [now exists []|].
+  cbn [values_loop]. destruct (is_nil n); [now apply IH|].
+  rewrite get_loop_S. unfold sys_lgetxattr. destruct (assoc n xs) as [v|] eqn:Ea.
+  - destruct (get_loop_done xs n v Ea f cap Hc) as (cap' & Hg & Hc').
+    { pose proof (assoc_vsum _ _ _ Ea). pose proof (pow2_gt (N.of_nat f)). unfold blen. nia. }
+    rewrite get_loop_S in Hg. unfold sys_lgetxattr in Hg. rewrite Ea in Hg. rewrite Hg.
+    destruct (IH cap' Hc') as (l & ->). now eexists.
+  - apply IH. assumption.
+Qed.
+
+Theorem get_xattrs_total xs : exists r, get_xattrs xs = LDone r.
+Proof.
+  unfold get_xattrs, xattr_fuel. rewrite list_loop_done.
+  - fold (vsum xs). destruct (values_loop_total xs (length (name_buf xs) + vsum xs) ltac:(lia)
+                                (split NUL (name_buf xs)) 1024 ltac:(lia)) as (l & ->). now eexists.
+  - lia.
+  - fold (vsum xs). unfold blen. pose proof (pow2_gt (N.of_nat (length (name_buf xs) + vsum xs))). lia.
+Qed.
+
+Theorem add_single_terminates p s now : add_single p s now <> RDiverge.
+Proof.
+  unfold add_single. destruct (negb (line_ok p)); [discriminate|]. destruct s as [| |o].
+  - destruct (p_skip p); [discriminate|]. destruct (type_decision p false LNone false) as [t|]; [|discriminate].
+    unfold finish. destruct t; try discriminate.
+    + destruct (is_nil _); discriminate.
+    + destruct (p_dev _) as [[[? ?] ?]|]; discriminate.
+  - discriminate.
+  - destruct (classify _) as [[a b]|]; [|discriminate]. destruct (type_decision p true a b) as [t|]; [|discriminate].
+    destruct (get_xattrs_total (o_xattrs o)) as (r & ->).
+    unfold finish. rewrite readlink_complete. destruct t; try discriminate.
+    + destruct (is_nil _); discriminate.
+    + destruct (p_dev _) as [[[? ?] ?]|]; [discriminate|].
+      destruct (_ =? S_IFCHR); [discriminate|]. destruct (_ =? S_IFBLK); discriminate.
+Qed.
+
+Theorem run_terminates ms : run ms <> RDiverged.
+Proof.
+  unfold run. destruct (add_all ms) eqn:E; try discriminate.
+  - destruct (headers _); discriminate.
+  - apply add_all_div_inv in E as (m & _ & Hm). now apply add_single_terminates in Hm.
+Qed.
+
+(* ---------- header_faithful, spelled out field by field ---------- *)
+Lemma xattr_beq_true a b : xattr_beq a b = true <-> a = b.
+Proof.
+  unfold xattr_beq. destruct a as [a1 a2], b as [b1 b2]. cbn. rewrite andb_true_iff, !beq_true.
+  split; [intros [-> ->]; reflexivity|intros H; injection H as -> ->; auto].
+Qed.
+
+Theorem header_faithful m o now e :
+  member_wf m = true -> m_src (mc_member m) = SPresent o ->
+  p_mod (m_opts (mc_member m)) = None -> p_uid (m_opts (mc_member m)) = None ->
+  p_gid (m_opts (mc_member m)) = None -> p_dev (m_opts (mc_member m)) = None ->
+  p_target (m_opts (mc_member m)) = [] ->
+  add_single (m_opts (mc_member m)) (SPresent o) now = ROk e ->
+  exists h, mk_header e = TOk h
+    /\ h_name h = dot :: p_name (m_opts (mc_member m))
+    /\ h_type h = obj_type (st_mode (o_st o))
+    /\ N.land (h_mode h) 4095 = N.land (st_mode (o_st o)) 4095
+    /\ h_uid h = st_uid (o_st o) /\ h_gid h = st_gid (o_st o)
+    /\ h_mtime h = st_mtime (o_st o)
+    /\ h_xattrs h = o_xattrs o
+    /\ (h_type h = TypeReg -> h_size h = st_size (o_st o) /\ h_data h = o_data o)
+    /\ (h_type h = TypeSymlink -> h_link h = o_link o)
+    /\ (h_type h = TypeChar \/ h_type h = TypeBlock ->
+         h_major h = ref_major (st_rdev (o_st o)) /\ h_minor h = ref_minor (st_rdev (o_st o))).
+Proof.
+  intros Hwf Hsrc Hmod Hu Hg Hd Ht He.
+  destruct (present_member m o now e Hwf Hsrc He) as (h & Hh & Hn & Hty & Hco & Hki & _ & _).
+  exists h. split; [assumption|].
+  destruct (mk_header_fields _ _ Hh) as (Hname & _). rewrite Hname, Hn. split; [reflexivity|].
+  unfold expected_type in Hty. rewrite Hd, Ht in Hty. cbn [is_nil] in Hty. split; [assumption|].
+  assert (Hms : mc_mod m = MNone).
+  { unfold member_wf in Hwf. apply andb_true_iff in Hwf as [W _]. apply andb_true_iff in W as [W _].
+    apply andb_true_iff in W as [W _]. apply andb_true_iff in W as [W _]. apply andb_true_iff in W as [W _].
+    apply andb_true_iff in W as [W _]. apply andb_true_iff in W as [_ W].
+    apply opt_beq_bytes_true in W. rewrite Hmod in W. destruct (mc_mod m); [reflexivity|discriminate|discriminate]. }
+  unfold common_fields_ok in Hco. rewrite Hms, Hu, Hg in Hco. cbn [apply_mod optN] in Hco.
+  apply andb_true_iff in Hco as [Hco Hx]. apply andb_true_iff in Hco as [Hco Hmt].
+  apply andb_true_iff in Hco as [Hco Hgid]. apply andb_true_iff in Hco as [Hmode Huid].
+  apply N.eqb_eq in Hmode, Huid, Hgid. apply Z.eqb_eq in Hmt.
+  apply (list_beq_true xattr_beq xattr_beq_true) in Hx.
+  repeat (split; [assumption|]).
+  unfold kind_fields_ok in Hki. rewrite Hd, Ht in Hki. cbn [is_nil] in Hki.
+  apply andb_true_iff in Hki as [Hki Hdv]. apply andb_true_iff in Hki as [Hsz Hlk].
+  split; [|split].
+  - intros E. rewrite E in Hsz. cbn in Hsz. apply andb_true_iff in Hsz as [S1 S2].
+    apply N.eqb_eq in S1. apply beq_true in S2. auto.
+  - intros E. rewrite E in Hlk. cbn in Hlk. now apply beq_true in Hlk.
+  - intros E. assert (B : (h_type h =? TypeChar) || (h_type h =? TypeBlock) = true)
+      by (destruct E as [-> | ->]; reflexivity).
+    rewrite B in Hdv. apply andb_true_iff in Hdv as [D1 D2]. apply N.eqb_eq in D1, D2. auto.
+Qed.
+
+(* ---------- a non-trivial case inside the domain ---------- *)
+Definition example_obj_blk : object :=
+  MkObj (MkStat 25008 0 6 1700000000%Z 0 (makedev 8 300) 1 1) [] [(bs "trusted.k", bs "v")] 0 [].
+Definition example_obj_lnk : object :=
+  MkObj (MkStat 41471 1000 1000 (-5)%Z 300 0 1 2) (repeat (nb 120) 300) [] 0 [].
+Definition example_case : case :=
+  MkCase
+    [ MkM (MkMember (MkOpts LDir (bs "/opt/new") false [] (Some (bs "g+w,o-x")) None (Some 7) None false) SAbsent 100%Z)
+          (MSym [(2, true, 1); (3, false, 2)]);
+      MkM (MkMember (MkOpts LNone (bs "/opt/t/blk") false [] None None None None true) (SPresent example_obj_blk) 100%Z) MNone;
+      MkM (MkMember (MkOpts LSym (bs "/opt/t/lnk") false [] None None None None false) (SPresent example_obj_lnk) 100%Z) MNone ]
+    100%Z 101%Z [(1, true)] RFailed.
+Example example_wf : wf example_case = true /\ kf example_case = 0
+  /\ (exists hs, fst (model example_case) = ROutput hs /\ length hs = 3%nat).
+Proof. vm_compute. repeat split. eexists. split; reflexivity. Qed.
+
+Lemma dev_decode d : dev_major d = ref_major d /\ dev_minor d = ref_minor d.
+Proof. split; [exact (dev_major_arith d)|exact (dev_minor_arith d)]. Qed.
